@@ -102,7 +102,7 @@ iwrc iwstw_shutdown(struct iwstw * *stwp, bool wait_for_all) {
       struct _task *o = t;
       t = t->next;
       if (stw->on_task_discard) {
-        stw->on_task_discard(t->fn, t->arg);
+        stw->on_task_discard(o->fn, o->arg);
       }
       free(o);
     }
@@ -217,7 +217,7 @@ iwrc iwstw_schedule_only(struct iwstw *stw, iwstw_task_f fn, void *arg) {
     struct _task *o = t;
     t = t->next;
     if (stw->on_task_discard) {
-      stw->on_task_discard(t->fn, t->arg);
+      stw->on_task_discard(o->fn, o->arg);
     }
     free(o);
   }
